@@ -30,13 +30,25 @@ impl File {
 pub struct OpenOptions { pub w: bool, pub c: bool, pub t: bool, pub a: bool }
 impl OpenOptions {
     // same receiver shapes as std (`&mut self -> &mut Self`, `open(&self, ..)`), so both the builder chain and a named local compile
-    pub fn new() -> (r: OpenOptions) { OpenOptions { w: false, c: false, t: false, a: false } }
-    pub fn write(&mut self, v: bool) -> (r: &mut OpenOptions) { self.w = v; self }
-    pub fn create(&mut self, v: bool) -> (r: &mut OpenOptions) { self.c = v; self }
-    pub fn truncate(&mut self, v: bool) -> (r: &mut OpenOptions) { self.t = v; self }
-    pub fn append(&mut self, v: bool) -> (r: &mut OpenOptions) { self.a = v; self }
-    #[verifier::external_body] pub fn open(&self, path: &str) -> (r: io::Result<File>) { unimplemented!() }
+    pub fn new() -> (r: OpenOptions) ensures r == (OpenOptions { w: false, c: false, t: false, a: false }) { OpenOptions { w: false, c: false, t: false, a: false } }
+    pub fn write(&mut self, v: bool) -> (r: &mut OpenOptions)
+        ensures *r == (OpenOptions { w: v, ..*old(self) }), *final(r) == *final(self),
+    { self.w = v; self }
+    pub fn create(&mut self, v: bool) -> (r: &mut OpenOptions)
+        ensures *r == (OpenOptions { c: v, ..*old(self) }), *final(r) == *final(self),
+    { self.c = v; self }
+    pub fn truncate(&mut self, v: bool) -> (r: &mut OpenOptions)
+        ensures *r == (OpenOptions { t: v, ..*old(self) }), *final(r) == *final(self),
+    { self.t = v; self }
+    pub fn append(&mut self, v: bool) -> (r: &mut OpenOptions)
+        ensures *r == (OpenOptions { a: v, ..*old(self) }), *final(r) == *final(self),
+    { self.a = v; self }
+    #[verifier::external_body] pub fn open(&self, path: &str) -> (r: io::Result<File>)
+        ensures r is Ok ==> opened_with(r->Ok_0) == *self,
+    { unimplemented!() }
 }
+// ghost: the options a file handle was opened with (what the operating system was asked for)
+pub uninterp spec fn opened_with(f: File) -> OpenOptions;
 
 /*@type lang/dynamics/src/host.rs :: struct ReaderHandle
    derive Clone, Copy, Debug, Hash, PartialEq, Eq, Structural
@@ -122,6 +134,8 @@ impl HostRuntime {
             && final(self).writers@.dom() == old(self).writers@.dom().insert(r->Ok_0),
         // [OPENW-CLOSED-STAY]
         forall|h: WriterHandle| old(self).writer_closed(h) ==> final(self).writer_closed(h),
+        // [OPENW-MODE] the file is opened for writing, created if missing, and TRUNCATED unless appending (then appended to)
+        r is Ok ==> opened_with(final(self).writers@[r->Ok_0]) == (OpenOptions { w: true, c: true, t: !append, a: append }),
         // [OPENW-FRAME]
         r is Err ==> final(self).writers@.dom() == old(self).writers@.dom() && final(self).next_writer == old(self).next_writer,
         final(self).readers@ == old(self).readers@ && final(self).next_reader == old(self).next_reader,
@@ -131,8 +145,9 @@ impl HostRuntime {
 @*/
     requires old(self).wf(), old(self).next_writer < usize::MAX,
     ensures
-        // [CREATE] same contract as open_writer
+        // [CREATE] same contract as open_writer; `create` means create-or-truncate
         final(self).wf(),
+        r is Ok ==> opened_with(final(self).writers@[r->Ok_0]) == (OpenOptions { w: true, c: true, t: true, a: false }),
         r is Ok ==> r->Ok_0.0 == old(self).next_writer && final(self).writers@.dom() == old(self).writers@.dom().insert(r->Ok_0),
         forall|h: WriterHandle| old(self).writer_closed(h) ==> final(self).writer_closed(h),
 /*@end*/
@@ -141,8 +156,9 @@ impl HostRuntime {
 @*/
     requires old(self).wf(), old(self).next_writer < usize::MAX,
     ensures
-        // [APPEND] same contract as open_writer
+        // [APPEND] same contract as open_writer; `append` never truncates
         final(self).wf(),
+        r is Ok ==> opened_with(final(self).writers@[r->Ok_0]) == (OpenOptions { w: true, c: true, t: false, a: true }),
         r is Ok ==> r->Ok_0.0 == old(self).next_writer && final(self).writers@.dom() == old(self).writers@.dom().insert(r->Ok_0),
         forall|h: WriterHandle| old(self).writer_closed(h) ==> final(self).writer_closed(h),
 /*@end*/
